@@ -135,6 +135,11 @@ fn check_history(ci: usize, case: &Value) -> Option<Value> {
                 Some(t) => *t,
                 None => return None,
             };
+            // TimeTrigger.tla counts whole seconds; a real arrival is somewhere inside its second.  Boundaries are whole
+            // seconds, so where in its second an arrival lies changes neither whether it is at or after the scheduled
+            // instant nor the next boundary: the last nanosecond and the last half millisecond of the second before a
+            // boundary are still before it
+            let t = if op["op"] == "new" { t } else { t + chrono::Duration::nanoseconds([0i64, 999_999_999, 999_500_000, 1, 500_000_000][mix(ci + i) % 5]) };
             log4rs::verif::set_now(Some(t));
             let sched_want = naive(&op["sched"]);
             if op["op"] == "new" {
